@@ -4,6 +4,7 @@ import (
 	"context"
 	"errors"
 	"fmt"
+	"strings"
 	"sync/atomic"
 
 	wire "github.com/jeroenrinzema/psql-wire"
@@ -22,7 +23,7 @@ type c19 struct{ base }
 
 func init() {
 	core.Register(c19{base{id: "C19", level: "exploration", quickB: 16, thoroughB: 32,
-		rule: "all (n, failing position) pairs for n = 0..6 session middlewares (each adds context key i, asserts keys 0..i-1, records the transport write offset at invocation) x {with, without password auth} x {with, without terminate hook} x {transport whose Close succeeds / reports an error} x ending {Terminate, EOF, Terminate pipelined after a query} x generated command histories (simple queries, Parse/Bind/Execute batches, failing queries); parser and statement callbacks capture their context: Err()==nil on entry and exit, all middleware keys, client/server parameters, remote address and type map present; every captured per-command context must report context.Canceled once the next command is served and at connection end; a failing middleware must end the connection with no command served; the terminate hook runs exactly once iff Terminate was sent, and the server closes the connection. Non-trivial = n >= 2 or a failing position or a Terminate ending; distinct = (n, failing position, auth, hook, ending, history shape).",
+		rule:        "all (n, failing position) pairs for n = 0..6 session middlewares (each adds context key i, asserts keys 0..i-1, records the transport write offset at invocation) x {with, without password auth} x {with, without terminate hook} x {transport whose Close succeeds / reports an error} x ending {Terminate, EOF, Terminate pipelined after a query} x generated command histories (simple queries incl. padded ones of 4 KiB, Parse/Bind/Execute batches, failing queries; 0-5 commands, one connection in ten 120-320 commands); parser and statement callbacks capture their context: Err()==nil on entry and exit, all middleware keys, client/server parameters, remote address and type map present; every captured per-command context must report context.Canceled once the next command is served and at connection end; a failing middleware must end the connection with no command served; the terminate hook runs exactly once iff Terminate was sent, and the server closes the connection. Non-trivial = n >= 2 or a failing position or a Terminate ending; distinct = (n, failing position, auth, hook, ending, history shape).",
 		need:        []string{"connections", "middleware_invocations", "callback_contexts_checked", "command_contexts_cancelled", "middleware_failures", "terminate_hook_runs", "eof_endings"},
 		assumptions: commonAssumptions}})
 }
@@ -285,10 +286,16 @@ func (ch c19) runConn(c *core.Ctx, env *hs.Env, cfg c19cfg, ending string, rng *
 		return true
 	}
 	n := rng.Intn(6)
+	if rng.Intn(10) == 0 {
+		n = 120 + rng.Intn(200) // a long-lived connection: well beyond 4 KiB / 8 KiB of client messages
+		c.Count("long_histories", 1)
+	}
 	for i := 0; i < n; i++ {
 		before := len(st.ctxs)
 		var in []byte
-		switch rng.Intn(5) {
+		switch rng.Intn(6) {
+		case 5:
+			in = pg.Query("ok /* " + strings.Repeat("pad ", core.Pick(rng, []int{10, 60, 1000, 1100})) + "*/")
 		case 0:
 			in = pg.Query("ok")
 		case 1:
